@@ -225,6 +225,162 @@ theorem incCode_exec (L : Layout) (s : Cpu) (inc : Bool) (v : LV) :
       · rw [m3, m2, a2, a1, m1]
         cases inc <;> simp [tmpWrite, RA.isReg, rval, val, LV.ra, BOp.apply]
 
+
+/-! ### 16-bit destinations (stage 6) -/
+
+theorem adc_a (s : Cpu) (m : Byte) : (s.adc m).a = s.a + m + (if s.f.c then 1 else 0) := by
+  simp only [Cpu.adc]
+  apply BitVec.eq_of_toNat_eq
+  cases s.f.c <;> simp [BitVec.toNat_add]
+
+theorem adc_c (s : Cpu) (m : Byte) : (s.adc m).f.c = decide (s.a.toNat + m.toNat + (if s.f.c then 1 else 0) ≥ 256) := by
+  simp [Cpu.adc]
+
+theorem sbc_a (s : Cpu) (m : Byte) : (s.sbc m).a = s.a - m - (if s.f.c then 0 else 1) := by
+  simp only [Cpu.sbc, Cpu.adc]
+  apply BitVec.eq_of_toNat_eq
+  have := s.a.isLt; have := m.isLt
+  cases s.f.c <;> simp [BitVec.toNat_add, BitVec.toNat_sub, BitVec.toNat_not] <;> omega
+
+theorem sbc_c (s : Cpu) (m : Byte) : (s.sbc m).f.c = decide (m.toNat + (if s.f.c then 0 else 1) ≤ s.a.toNat) := by
+  have := s.a.isLt; have := m.isLt
+  cases h : s.f.c <;> simp [Cpu.sbc, Cpu.adc, h, BitVec.toNat_not] <;> omega
+
+@[simp] theorem adc_mem (s : Cpu) (m : Byte) : (s.adc m).mem = s.mem := by simp [Cpu.adc]
+@[simp] theorem adc_x (s : Cpu) (m : Byte) : (s.adc m).x = s.x := by simp [Cpu.adc]
+@[simp] theorem adc_y (s : Cpu) (m : Byte) : (s.adc m).y = s.y := by simp [Cpu.adc]
+@[simp] theorem adc_sp (s : Cpu) (m : Byte) : (s.adc m).sp = s.sp := by simp [Cpu.adc]
+@[simp] theorem sbc_mem (s : Cpu) (m : Byte) : (s.sbc m).mem = s.mem := by simp [Cpu.sbc]
+@[simp] theorem sbc_x (s : Cpu) (m : Byte) : (s.sbc m).x = s.x := by simp [Cpu.sbc]
+@[simp] theorem sbc_y (s : Cpu) (m : Byte) : (s.sbc m).y = s.y := by simp [Cpu.sbc]
+@[simp] theorem sbc_sp (s : Cpu) (m : Byte) : (s.sbc m).sp = s.sp := by simp [Cpu.sbc]
+
+/-- the first byte pass: `LDA lo x ; [CLC|SEC] ; [op lo y] ; STA s` -/
+theorem lowPass_exec (L : Layout) (s : Cpu) (v : String) (op : BOp) (x y : Atom) (emit : Bool)
+    (hskip : emit = false → (lowRes op (val L s.mem s.x s.y x) (val L s.mem s.x s.y y)).1 = val L s.mem s.x s.y x ∧
+       (op = .add → (lowRes op (val L s.mem s.x s.y x) (val L s.mem s.x s.y y)).2 = false) ∧
+       (op = .sub → (lowRes op (val L s.mem s.x s.y x) (val L s.mem s.x s.y y)).2 = true)) :
+    ∃ s1, execSeq s ([(Mn.LDA, opd L x)] ++ (carryOf op).map (fun m => (m, Opd.none)) ++
+        (if emit then (mainOf op).map fun m => (m, opd L y) else []) ++ [(Mn.STA, opd L (.var v))]) = some s1 ∧
+      s1.mem = s.mem.write (L v) (lowRes op (val L s.mem s.x s.y x) (val L s.mem s.x s.y y)).1 ∧
+      s1.x = s.x ∧ s1.y = s.y ∧ s1.sp = s.sp ∧
+      ((op = .add ∨ op = .sub) → s1.f.c = (lowRes op (val L s.mem s.x s.y x) (val L s.mem s.x s.y y)).2) := by
+  have hx := rd_opd L s x
+  cases emit with
+  | true =>
+    cases op
+    · simp [carryOf, mainOf, execSeq, Cpu.exec, hx, rd_opd, Cpu.ea, lowRes, adc_a, adc_c]
+    · simp [carryOf, mainOf, execSeq, Cpu.exec, hx, rd_opd, Cpu.ea, lowRes, sbc_a, sbc_c]
+    · simp [carryOf, mainOf, execSeq, Cpu.exec, hx, rd_opd, Cpu.ea, lowRes, BOp.apply]
+    · simp [carryOf, mainOf, execSeq, Cpu.exec, hx, rd_opd, Cpu.ea, lowRes, BOp.apply]
+    · simp [carryOf, mainOf, execSeq, Cpu.exec, hx, rd_opd, Cpu.ea, lowRes, BOp.apply]
+  | false =>
+    obtain ⟨h1, h2, h3⟩ := hskip rfl
+    cases op
+    · simp [carryOf, execSeq, Cpu.exec, hx, Cpu.ea, h1, h2]
+    · simp [carryOf, execSeq, Cpu.exec, hx, Cpu.ea, h1, h3]
+    · simp [carryOf, execSeq, Cpu.exec, hx, Cpu.ea, h1]
+    · simp [carryOf, execSeq, Cpu.exec, hx, Cpu.ea, h1]
+    · simp [carryOf, execSeq, Cpu.exec, hx, Cpu.ea, h1]
+
+/-- the second byte pass: `LDA hi x ; op hi y ; STA s+1`, with the carry the first pass left -/
+theorem highPass_exec (L : Layout) (s : Cpu) (v : String) (op : BOp) (x y : Atom) :
+    ∃ s2, execSeq s ([(Mn.LDA, opd L x)] ++ (mainOf op).map (fun m => (m, opd L y)) ++ [(Mn.STA, opd L (hiCell v))]) = some s2 ∧
+      s2.mem = s.mem.write (L v + 1) (highRes op s.f.c (val L s.mem s.x s.y x) (val L s.mem s.x s.y y)) ∧
+      s2.x = s.x ∧ s2.y = s.y ∧ s2.sp = s.sp := by
+  have hx := rd_opd L s x
+  cases op
+  · simp [mainOf, execSeq, Cpu.exec, hx, rd_opd, Cpu.ea, highRes, adc_a, hiCell]
+    rfl
+  · simp [mainOf, execSeq, Cpu.exec, hx, rd_opd, Cpu.ea, highRes, sbc_a, hiCell]
+    rfl
+  · simp [mainOf, execSeq, Cpu.exec, hx, rd_opd, Cpu.ea, highRes, BOp.apply, hiCell]
+  · simp [mainOf, execSeq, Cpu.exec, hx, rd_opd, Cpu.ea, highRes, BOp.apply, hiCell]
+  · simp [mainOf, execSeq, Cpu.exec, hx, rd_opd, Cpu.ea, highRes, BOp.apply, hiCell]
+
+
+theorem lowSkip (L : Layout) (m : Mem) (rx ry : Byte) (op : BOp) (y : WA) (a : Byte) (h : lowEmitted op y = false) :
+    (lowRes op a (val L m rx ry y.lo)).1 = a ∧ (op = .add → (lowRes op a (val L m rx ry y.lo)).2 = false) ∧
+      (op = .sub → (lowRes op a (val L m rx ry y.lo)).2 = true) := by
+  cases y with
+  | wvar t => simp [lowEmitted] at h
+  | wbyte t => simp [lowEmitted] at h
+  | wconst v =>
+    have e255 : (255#8 : BitVec 8) = BitVec.allOnes 8 := by decide
+    cases op <;> simp [lowEmitted] at h
+    · simp [lowRes, WA.lo, val, h]; exact a.isLt
+    · subst h; simp [lowRes, WA.lo, val]
+    · simp [lowRes, WA.lo, val, h, BOp.apply]; rw [e255, BitVec.and_allOnes]
+    · subst h; simp [lowRes, WA.lo, val, BOp.apply]
+    · subst h; simp [lowRes, WA.lo, val, BOp.apply]
+
+/-- `LDA a ; STA cell` -/
+theorem ldaSta_exec (L : Layout) (s : Cpu) (a : Atom) (addr : Word) :
+    ∃ s', execSeq s [(Mn.LDA, opd L a), (Mn.STA, Opd.mem addr)] = some s' ∧
+      s'.mem = s.mem.write addr (val L s.mem s.x s.y a) ∧ s'.x = s.x ∧ s'.y = s.y ∧ s'.sp = s.sp := by
+  have h1 := rd_opd L s a
+  simp [execSeq, Cpu.exec, h1, Cpu.ea]
+
+theorem asgWCode_exec (L : Layout) (s : Cpu) (v : String) (a : WA) :
+    ∃ s', execSeq s (asgWCode (opd L) v a) = some s' ∧ srcOf s' = asgWSpec L (srcOf s) v a ∧ s'.sp = s.sp := by
+  obtain ⟨s1, e1, m1, x1, y1, p1⟩ := ldaSta_exec L s a.lo (L v)
+  obtain ⟨s2, e2, m2, x2, y2, p2⟩ := ldaSta_exec L s1 a.hi (L v + 1)
+  refine ⟨s2, ?_, ?_, by rw [p2, p1]⟩
+  · have : asgWCode (opd L) v a = [(Mn.LDA, opd L a.lo), (Mn.STA, Opd.mem (L v))] ++ [(Mn.LDA, opd L a.hi), (Mn.STA, Opd.mem (L v + 1))] := by
+      simp [asgWCode, hiCell]
+    rw [this, execSeq_append', e1]
+    simpa using e2
+  · simp only [srcOf, asgWSpec, wr, rval, elAddr]
+    rw [m2, x2, y2, m1, x1, y1]
+    rfl
+
+theorem binWCode_exec (L : Layout) (s : Cpu) (v : String) (op : BOp) (x y : WA) :
+    ∃ s', execSeq s (binWCode Opd.none (opd L) v op x y) = some s' ∧ srcOf s' = binWSpec L (srcOf s) v op x y ∧ s'.sp = s.sp := by
+  by_cases hm : maskLow op x y = true
+  · -- `t & 255`
+    have e255 : (255#8 : BitVec 8) = BitVec.allOnes 8 := by decide
+    cases x with
+    | wconst n => simp [maskLow] at hm
+    | wbyte b => simp [maskLow] at hm
+    | wvar t =>
+      simp [maskLow] at hm
+      obtain ⟨ho, hy⟩ := hm
+      subst ho; subst hy
+      simp [binWCode, maskLow, execSeq, Cpu.exec, Cpu.rd, Cpu.ea, WA.lo, WA.hi, hiCell, binWSpec, lowRes, highRes, BOp.apply,
+        wr, rval, val, srcOf, elAddr]
+      rw [e255, BitVec.and_allOnes]
+  · have hm' : maskLow op x y = false := by simpa using hm
+    obtain ⟨s1, e1, m1, x1, y1, p1, c1⟩ := lowPass_exec L s v op x.lo y.lo (lowEmitted op y)
+      (fun h => lowSkip L s.mem s.x s.y op y _ h)
+    obtain ⟨s2, e2, m2, x2, y2, p2⟩ := highPass_exec L s1 v op x.hi y.hi
+    refine ⟨s2, ?_, ?_, by rw [p2, p1]⟩
+    · have : binWCode Opd.none (opd L) v op x y =
+          ([(Mn.LDA, opd L x.lo)] ++ (carryOf op).map (fun m => (m, Opd.none)) ++
+            (if lowEmitted op y then (mainOf op).map fun m => (m, opd L y.lo) else []) ++ [(Mn.STA, opd L (.var v))]) ++
+          ([(Mn.LDA, opd L x.hi)] ++ (mainOf op).map (fun m => (m, opd L y.hi)) ++ [(Mn.STA, opd L (hiCell v))]) := by
+        simp [binWCode, hm', List.append_assoc]
+      rw [this, execSeq_append', e1]
+      simpa using e2
+    · have hc : s1.f.c = (lowRes op (val L s.mem s.x s.y x.lo) (val L s.mem s.x s.y y.lo)).2 ∨ (op ≠ .add ∧ op ≠ .sub) := by
+        cases op
+        · exact Or.inl (c1 (Or.inl rfl))
+        · exact Or.inl (c1 (Or.inr rfl))
+        · exact Or.inr ⟨by simp, by simp⟩
+        · exact Or.inr ⟨by simp, by simp⟩
+        · exact Or.inr ⟨by simp, by simp⟩
+      have hh : highRes op s1.f.c = highRes op (lowRes op (val L s.mem s.x s.y x.lo) (val L s.mem s.x s.y y.lo)).2 := by
+        rcases hc with h | ⟨h1, h2⟩
+        · rw [h]
+        · cases op
+          · exact absurd rfl h1
+          · exact absurd rfl h2
+          · funext a b; rfl
+          · funext a b; rfl
+          · funext a b; rfl
+      simp only [srcOf, binWSpec, wr, rval, elAddr]
+      rw [m2, x2, y2, hh, m1, x1, y1]
+      rfl
+
 /-- every statement, every layout, every machine state: the code ends, memory / X / Y are what the source
     prescribes, SP is untouched, and the generator's belief about the flags is true afterwards -/
 theorem rflat_correct (L : Layout) (zp : String → Bool) (st : RStmt) (fl : Option FRef) (s : Cpu) (hinv : FlagsInv L fl s) :
@@ -236,5 +392,14 @@ theorem rflat_correct (L : Layout) (zp : String → Bool) (st : RStmt) (fl : Opt
   | opasg v op a => simpa [rgenOps, rtemplate, rspec, flagsAfter] using binCode_exec L zp s fl v op v.ra a hinv
   | inc v => simpa [rgenOps, rtemplate, rspec, flagsAfter] using incCode_exec L s true v
   | dec v => simpa [rgenOps, rtemplate, rspec, flagsAfter] using incCode_exec L s false v
+  | asgW v a =>
+    obtain ⟨s', h1, h2, h3⟩ := asgWCode_exec L s v a
+    exact ⟨s', by simpa [rgenOps, rtemplate] using h1, by simpa [rspec] using h2, h3, by simp [flagsAfter]⟩
+  | binW v op a b =>
+    obtain ⟨s', h1, h2, h3⟩ := binWCode_exec L s v op (wordered op a b).1 (wordered op a b).2
+    exact ⟨s', by simpa [rgenOps, rtemplate] using h1, by simpa [rspec] using h2, h3, by simp [flagsAfter]⟩
+  | opasgW v op a =>
+    obtain ⟨s', h1, h2, h3⟩ := binWCode_exec L s v op (.wvar v) a
+    exact ⟨s', by simpa [rgenOps, rtemplate] using h1, by simpa [rspec] using h2, h3, by simp [flagsAfter]⟩
 
 end CV.GenReg
